@@ -162,6 +162,19 @@ def run(ck):
                     sens = sens or e != "DIAG"
         cases.append({"arch": "z80", "files": fs, "cwd": "/w", "root": root_arg, "paths": paths, "order_sensitive": sens})
         expect.append(e); ambiguous.append(amb)
+    # a macro written in a file of one directory and used in a file of another: its body is text at the place of use, so every
+    # lookup in it -- the first and the later ones alike -- starts in the directory of the file that uses it
+    for second in ('@include "y.inc"', '@incbin "y.bin"', '@include "sub/z.inc"'):
+        fs = {"/w/src/main.asm": '@db $aa\n@include "../lib1/mac.inc"\ninc2\n@db $ab\n@include "x.inc"\ninc2\n',
+              "/w/lib1/mac.inc": '@macro inc2, 0\n@include "x.inc"\n@db $fe\n%s\n@db $fd\n%s\n@endmacro\n' % (second, second),
+              "/w/src/x.inc": "@db $11\n", "/w/lib1/x.inc": "@db $21\n", "/w/src/y.inc": "@db $12\n", "/w/lib1/y.inc": "@db $22\n",
+              "/w/src/y.bin": b"\x13", "/w/lib1/y.bin": b"\x23", "/w/src/sub/z.inc": "@db $14\n", "/w/lib1/sub/z.inc": "@db $24\n"}
+        for d in DIRS:
+            fs.setdefault(d + "/.keep", "")
+        v = {'@include "y.inc"': 0x12, '@incbin "y.bin"': 0x13, '@include "sub/z.inc"': 0x14}[second]
+        body = bytes([0x11, 0xfe, v, 0xfd, v])
+        cases.append({"arch": "z80", "files": fs, "cwd": "/w", "root": "src/main.asm", "paths": [], "order_sensitive": False})
+        expect.append("OK " + (bytes([0xaa]) + body + bytes([0xab, 0x11]) + body).hex()); ambiguous.append(2)
     # @incbin is the file's bytes, all of them: files that fill the address space exactly, or miss / exceed it by one
     for nbytes, org in ((65536, 0), (65535, 0), (65535, 1), (65537, 0), (65536, 1), (40000, 25536), (40000, 25537)):
         blob = bytes((k * 7 + k // 251) % 256 for k in range(nbytes))
